@@ -18,6 +18,9 @@ pub struct Lx {
     /// address clients dial: a counting TCP relay in front of the server
     pub front_addr: SocketAddr,
     pub tls_connections: Arc<AtomicUsize>,
+    /// additional counting relays on 127.0.0.2.. (same counter): spreading connections over several
+    /// loopback addresses keeps long runs clear of ephemeral-port exhaustion (TIME_WAIT)
+    pub extra_fronts: Vec<SocketAddr>,
     pub client: Arc<Client>,
     pub socks: Option<SocketAddr>,
     pub http: Option<SocketAddr>,
@@ -102,8 +105,31 @@ pub async fn start_lx(server_password: &str, client_password: &str, pool: Sessio
             });
         }
     }));
+    let mut extra_fronts = vec![];
+    for k in 2..=8u8 {
+        let ip = format!("127.0.0.{k}");
+        let Ok(l) = TcpListener::bind(format!("{ip}:0")).await else { continue };
+        extra_fronts.push(l.local_addr().unwrap());
+        let c2 = count.clone();
+        tasks.push(tokio::spawn(async move {
+            loop {
+                let Ok((mut a, _)) = l.accept().await else { return };
+                c2.fetch_add(1, Ordering::SeqCst);
+                let ip = ip.clone();
+                tokio::spawn(async move {
+                    // leave from this relay's own address so that the 4-tuples differ per relay
+                    let Ok(sock) = tokio::net::TcpSocket::new_v4() else { return };
+                    let _ = sock.bind(format!("{ip}:0").parse().unwrap());
+                    let Ok(mut b) = sock.connect(server_addr).await else { return };
+                    let _ = a.set_nodelay(true);
+                    let _ = b.set_nodelay(true);
+                    let _ = tokio::io::copy_bidirectional(&mut a, &mut b).await;
+                });
+            }
+        }));
+    }
     let client = make_client(client_password, front_addr, PaddingFactory::default(), pool);
-    let mut lx = Lx { server_addr, front_addr, tls_connections: count, client: client.clone(), socks: None, http: None, tasks };
+    let mut lx = Lx { server_addr, front_addr, tls_connections: count, extra_fronts, client: client.clone(), socks: None, http: None, tasks };
     if socks {
         let c = client.clone();
         let (a, h) = start_on_free_port(move |a| {
@@ -296,4 +322,60 @@ pub async fn read_all_or_idle(s: &mut (impl AsyncReadExt + Unpin), idle_ms: u64)
             Ok(Ok(n)) => out.extend_from_slice(&buf[..n]),
         }
     }
+}
+
+/// Wait until the peer's receive queue for the connection (ours -> peer) is empty, i.e. the
+/// application on the other side has read everything sent so far. Forces TCP fragmentation
+/// deterministically: the next write cannot be merged into the same read. IPv4 only.
+pub async fn wait_peer_drained(ours: SocketAddr, peer: SocketAddr) {
+    fn enc(a: &SocketAddr) -> Option<String> {
+        match a {
+            SocketAddr::V4(v) => {
+                let o = v.ip().octets();
+                Some(format!("{:02X}{:02X}{:02X}{:02X}:{:04X}", o[3], o[2], o[1], o[0], v.port()))
+            }
+            _ => None,
+        }
+    }
+    let (Some(l), Some(r)) = (enc(&peer), enc(&ours)) else {
+        tokio::time::sleep(Duration::from_millis(3)).await;
+        return;
+    };
+    tokio::time::sleep(Duration::from_micros(300)).await;
+    for _ in 0..200 {
+        let Ok(text) = tokio::fs::read_to_string("/proc/net/tcp").await else { break };
+        let mut found = false;
+        let mut empty = false;
+        for line in text.lines().skip(1) {
+            let f: Vec<&str> = line.split_whitespace().collect();
+            if f.len() > 4 && f[1] == l && f[2] == r {
+                found = true;
+                if let Some((_tx, rx)) = f[4].split_once(':') {
+                    empty = u64::from_str_radix(rx, 16).unwrap_or(1) == 0;
+                }
+            }
+        }
+        if !found || empty {
+            return;
+        }
+        tokio::time::sleep(Duration::from_millis(1)).await;
+    }
+}
+
+/// Send `data` to `s` cut at `cuts`, waiting for the peer to drain between pieces.
+pub async fn send_fragmented(s: &mut TcpStream, data: &[u8], cuts: &[usize]) -> std::io::Result<()> {
+    let ours = s.local_addr()?;
+    let peer = s.peer_addr()?;
+    let mut prev = 0;
+    for &c in cuts.iter().chain(std::iter::once(&data.len())) {
+        if c > prev && c <= data.len() {
+            s.write_all(&data[prev..c]).await?;
+            s.flush().await?;
+            if c < data.len() {
+                wait_peer_drained(ours, peer).await;
+            }
+            prev = c;
+        }
+    }
+    Ok(())
 }
